@@ -1023,6 +1023,31 @@ impl Scenario for Chaos {
                     ops.push(TOp { t, op: Op::Ev { key, st: 1 } });
                 }
             }
+            // entering a character by its code: Alt held, one to five keypad digits, Alt released
+            if let Op::Ev { .. } = op {
+                if rng.chance(1, 12) {
+                    let alt = kidx(if rng.chance(3, 4) { KeyCode::LAlt } else { KeyCode::RAltGr }) as u8;
+                    const PAD: [KeyCode; 10] = [KeyCode::Numpad0, KeyCode::Numpad1, KeyCode::Numpad2, KeyCode::Numpad3, KeyCode::Numpad4, KeyCode::Numpad5, KeyCode::Numpad6, KeyCode::Numpad7, KeyCode::Numpad8, KeyCode::Numpad9];
+                    ops.push(TOp { t, op: Op::Ev { key: alt, st: 1 } });
+                    let nd = rng.range(1, 5);
+                    // all code points a five-digit entry can name, the 16-bit and 21-bit edges included
+                    let number = match rng.below(4) {
+                        0 => rng.below(100_000),
+                        1 => 55_000 + rng.below(3_000),
+                        2 => 65_000 + rng.below(1_000),
+                        _ => rng.below(10u64.pow(nd as u32)),
+                    };
+                    let text = format!("{}", number);
+                    for ch in text.bytes() {
+                        let k = kidx(PAD[(ch - b'0') as usize]) as u8;
+                        ops.push(TOp { t, op: Op::Ev { key: k, st: 1 } });
+                        if rng.chance(9, 10) {
+                            ops.push(TOp { t, op: Op::Ev { key: k, st: 0 } });
+                        }
+                    }
+                    ops.push(TOp { t, op: Op::Ev { key: alt, st: 0 } });
+                }
+            }
             // runs of bits: the counter must never run away
             if let Op::Edge { .. } = op {
                 if rng.chance(1, 6) {
